@@ -6,6 +6,8 @@
 (2) Online history monitor: over sequences of attempts in which the application feeds back the counter of each accepted
     match, the accepted counters must strictly increase (checked at every step, previous value in hand); replayed,
     stale, future and colliding codes are mixed in."""
+import datetime
+
 from vlib import hashers as H
 from vlib.run import main
 from checks.c13 import ref_hotp
@@ -41,6 +43,7 @@ def model(key, alg, digits, period, token, t, window, skew, last):
 
 
 def real(otp, token, t, window, skew, last):
+    """t may be a number or a date-time"""
     import passlib.exc as X
     try:
         m = otp.match(token, t, window=window, skew=skew, last_counter=last)
@@ -53,13 +56,16 @@ def real(otp, token, t, window, skew, last):
         return ("invalid",), None
 
 
-def compare(run, otp, key, alg, digits, period, token, t, window, skew, last, label):
+def compare(run, otp, key, alg, digits, period, token, t, window, skew, last, label, time_arg=None):
     want = model(key, alg, digits, period, token, t, window, skew, last)
+    targ = t if time_arg is None else time_arg
     w = dict(key=key, alg=alg, digits=digits, period=period, token=token, time=t, window=window, skew=skew, last_counter=last, model=want)
     rp = (f"import warnings; warnings.simplefilter('ignore')\nfrom passlib.totp import TOTP\nt=TOTP(key={key!r}, format='raw', alg={alg!r}, digits={digits}, period={period})\n"
-          f"print(t.match({token!r}, {t}, window={window}, skew={skew}, last_counter={last}))")
+          f"import datetime\nprint(t.match({token!r}, {targ!r}, window={window}, skew={skew}, last_counter={last}))")
+    if time_arg is not None:
+        w["time_argument"] = repr(time_arg)
     try:
-        got, m = real(otp, token, t, window, skew, last)
+        got, m = real(otp, token, targ, window, skew, last)
     except Exception as e:
         run.violation(f"C14|match|raises|{type(e).__name__}", f"match() raised {type(e).__name__}: {str(e)[:100]}; the model says {want}", w, rp)
         return None
@@ -112,7 +118,8 @@ def cube(run, periods, keyidx):
                                 compare(run, otp, key, alg, digits, period, bad, t, window, skew, last, "malformed")
                             # decorated spellings of a valid code
                             code = codes[min(max(cur, lo), hi)]
-                            for dec in (code[:3] + " " + code[3:], code[:3] + "-" + code[3:], " " + code + " ", code.encode()):
+                            for dec in (code[:3] + " " + code[3:], code[:3] + "-" + code[3:], " " + code + " ", code.encode(),
+                                        (code[:3] + " " + code[3:]).encode(), (code[:2] + "-" + code[2:]).encode(), (code + "\n").encode(), ("\t" + code).encode()):
                                 compare(run, otp, key, alg, digits, period, dec, t, window, skew, last, "decorated")
                         n += 1
         run.evaluations += n
@@ -147,7 +154,23 @@ def randoms(run, part):
         if last is not None and last < 0:
             last = 0
         token = ref_hotp(key, c, digits, alg)
-        got = compare(run, otp, key, alg, digits, period, token, t, window, skew, last, "random")
+        time_arg = None
+        label = "random"
+        if i % 3 == 0 and t < 250000000000:
+            # the attempt time as a date-time (aware with any offset, or naive = UTC) or a float
+            form = rng.choice(["aware", "aware", "naive", "float"])
+            if form == "aware":
+                tz = datetime.timezone(datetime.timedelta(minutes=rng.choice([0, 60, -60, 330, -480, 840, -720, 1, -1, rng.randint(-1439, 1439)])))
+                time_arg = datetime.datetime.fromtimestamp(t, tz)
+            elif form == "naive":
+                time_arg = datetime.datetime(1970, 1, 1) + datetime.timedelta(seconds=t)
+            else:
+                time_arg = t + rng.random() * 0.99
+            label = "random-" + form
+            run.count("time_form:" + form)
+        if i % 4 == 1:
+            token = rng.choice([token.encode(), int(token), (token[:3] + " " + token[3:]).encode(), token[:3] + "-" + token[3:]])
+        got = compare(run, otp, key, alg, digits, period, token, t, window, skew, last, label, time_arg)
         run.evaluations += 1
         if got is not None:
             run.distinct.add(f"random|{'w%p' if window % period else 'w=kp'}|{got[0]}|{'none' if last is None else 'zero' if last == 0 else 'pos'}|{alg}")
